@@ -323,6 +323,13 @@ def check_nuclide_entries(ck, X, F, entries, syms, st):
         want = '%d%s' % (e['A'], syms.get(e['Z'], '?'))
         if nm != want:
             ck.violation('c15:nuclide:entry:name', 'nuclide at index %d is named %r, A followed by the symbol of Z is %r' % (i, nm, want), wit); good = False
+        # "X-ray lines ... for the DAUGHTER element": which element that is follows from the decay mode of the nuclide (refdata.NUCLIDE_DECAY)
+        dec = refdata.NUCLIDE_DECAY.get(nm)
+        if dec is not None:
+            st['nuclide_daughters_checked'] = st.get('nuclide_daughters_checked', 0) + 1
+            if e['Z_xray'] != e['Z'] + dec[1]:
+                ck.violation('c15:nuclide:entry:x-ray-element-is-not-the-daughter', 'nuclide %r decays by %s, its daughter is Z=%d (%s); the entry gives its X-ray lines for Z_xray=%d (%s)' % (
+                    nm, dec[0], e['Z'] + dec[1], syms.get(e['Z'] + dec[1], '?'), e['Z_xray'], syms.get(e['Z_xray'], '?')), dict(wit, decay=dec[0], daughter=e['Z'] + dec[1])); good = False
         if e['nXrays'] < 1:
             ck.violation('c15:nuclide:entry:no-xrays', 'nuclide %r lists %d X-ray lines' % (nm, e['nXrays']), wit); good = False
         for k, (ln, inten) in enumerate(zip(e['XrayLines'], e['XrayIntensities'])):
